@@ -6,7 +6,7 @@ import sys
 
 ROOT = os.path.dirname(os.path.dirname(os.path.abspath(__file__)))
 
-HOOK_COMMITS = ["b1474d3", "17f8504", "209f7d4", "d1c653d"]
+HOOK_COMMITS = ["b1474d3", "17f8504", "209f7d4", "d1c653d", "95035df"]
 
 CHECKS = {
     "C07": {
@@ -123,10 +123,12 @@ CHECKS["C08"] = {
 
 CHECKS["C15"] = {
     "category": "model_checking",
-    "technique": "TLA+ Limiter.tla (lazy token bucket with delayed consumption) checked by TLC; TLC evaluation of WindowBound / Fifo / CancelNeutral on recorded histories of the real Limiter on a manual clock",
+    "technique": "TLA+ Limiter.tla (lazy token bucket with delayed consumption) checked by TLC; TLC evaluation of WindowBound / Fifo / CancelNeutral on recorded histories of the real Limiter, and of TraceRpcRate.tla (window and in-flight bounds) on handler histories of the real rpc::Service, both on a manual clock",
     "text": "Model: every interleaving of calls, grants, cancels, drops and ticks (WindowBound, Fifo, bucket sanity). Code: seeded scripts run twice (with and "
-            "without the cancelled calls) on the real limiter; the window bound, arrival-order service and cancel-neutrality are evaluated by TLC on the grant histories.",
-    "note": "PARTIAL: the limiter half of the property only; the per-connection / per-RPC half (rpc::Service over mux, in-flight cap) has no harness. Manual clock, single-threaded runtime.",
+            "without the cancelled calls) on the real limiter; the window bound, arrival-order service and cancel-neutrality are evaluated by TLC on the grant histories. "
+            "Per connection: the real rpc::Service (ping, consensus servers) against real clients without client-side rate, a raw mux peer that answers every OPEN in advance, "
+            "and one that claims 1000 streams and uses stream ids beyond the limits; handler starts per window and concurrent handlers are bounded by TLC on the recorded history.",
+    "note": "Manual clock, single-threaded runtime with quiescence between clock advances. Two RPC kinds stand for all; the bound on handler starts carries an additive INFLIGHT term.",
     "design_ref": "§7 C15",
 }
 
